@@ -14,7 +14,7 @@ RULE = ("states = canonical (totals dict, Counter hidden state incl. scalar-vs-a
         "across moduli, batch orders and batch splits; non-trivial = the batch contains a key and a non-key sharing a bucket, or repeats")
 ASSUMPTIONS = ["reference model: dict of totals = initial value + occurrences", "samples lie inside the key dtype's range (others are outside the statement)"]
 REQUIRED_FEATURES = ["empty_batch", "only_non_keys", "non_key_colliding", "non_key_empty_bucket", "all_keys_collide", "scalar_nonzero_init",
-                     "array_init", "large_key", "cross_history_comparisons", "depth2"]
+                     "array_init", "large_key", "cross_history_comparisons", "depth2", "huge_batch"]
 BOUNDS = {"quick": "10 key sets (1-5 keys, and 10 / 17 keys) x moduli {default,1,2,3,4,64} x initial {default, 0, 4, per-key array} (+ int8/uint8/uint64/python-list keys, int32 counts on 4 sets); "
                    "all count histories of depth <= 2 over ~32 batches and depth 3 with the third batch from the 12 simplest (empty, every single universe element, ordered pairs over keys / colliding and "
                    "free non-keys, heavy repetition, only non-keys, large keys)",
@@ -25,7 +25,7 @@ KEYSETS_Q = [[0], [1, 3], [0, 1, 2], [5, -1, 2], [3, 0, 5, 1], [2 ** 62, 1], [7,
              list(range(10, 20)), list(range(40, 57))]      # 10 and 17 keys: above size thresholds of 8 / 16
 KEYSETS_T = KEYSETS_Q + [[2, 7], [0, 3, 5, 7, 1], [-1, 0], [2 ** 62 + 1]]
 MODS = [None, 1, 2, 3, 4, 64]
-INITS = ["default", "zero", "four", "array"]
+INITS = ["default", "zero", "four", "array", "ndarray"]
 TYPED = [([0, 1, 2], "int8"), ([1, 3], "uint8"), ([5, 2, 7], "uint64"), ([3, 0, 5, 1], None), ([0, 1, 2], "int32c")]
 
 
@@ -68,6 +68,14 @@ def batches(keys, mod, kdt):
     return res
 
 
+def huge_batch(keys, mod, kdt):
+    """one batch far larger than the table and than any plausible chunk size: long stretches without a key, keys in between and at the end"""
+    uni = [u for u in U if _fits(u, kdt)]
+    nk = [u for u in uni if u not in keys]
+    filler = (nk or [keys[0]])[0]
+    return {"rep": [[filler, 40000], [keys[0], 3], [filler, 30000], [keys[-1], 2], [keys[0], 1]]}
+
+
 def make(keys, mod, kdt, init):
     from npstructures import Counter
     kw = {"mod": mod}
@@ -82,12 +90,28 @@ def make(keys, mod, kdt, init):
         return Counter(karr, 0, **kw)
     if init == "four":
         return Counter(karr, 4, **kw)
+    if init == "ndarray":
+        global LAST_INIT
+        LAST_INIT = np.array([10 * (i + 1) for i in range(len(keys))])       # the caller's own array: must never change
+        return Counter(karr, LAST_INIT, **kw)
     return Counter(karr, [10 * (i + 1) for i in range(len(keys))], **kw)
+
+
+LAST_INIT = None
+
+
+def expand(b):
+    """batches are lists of samples; long ones are stored run-length encoded as {"rep": [[value, count], ...]}"""
+    if isinstance(b, dict):
+        return [v for v, c in b["rep"] for _ in range(c)]
+    return b
 
 
 def model0(keys, init):
     if init in ("default", "zero"):
         return {k: 0 for k in keys}
+    if init == "ndarray":
+        return {k: 10 * (i + 1) for i, k in enumerate(keys)}
     if init == "four":
         return {k: 4 for k in keys}
     return {k: 10 * (i + 1) for i, k in enumerate(keys)}
@@ -98,6 +122,7 @@ def replay(cfg, hist):
     c = make(keys, mod, kdt, init)
     d = model0(keys, init)
     for b in hist:
+        b = expand(b)
         c.count(list(b))
         for s in b:
             if s in d:
@@ -123,7 +148,7 @@ def run_shard(shard, tier, acc):
             acc.feature("all_keys_collide")
         if init == "four":
             acc.feature("scalar_nonzero_init")
-        if init == "array":
+        if init in ("array", "ndarray"):
             acc.feature("array_init")
         if any(k >= 2 ** 62 for k in keys):
             acc.feature("large_key")
@@ -134,6 +159,8 @@ def run_shard(shard, tier, acc):
         for dep in range(1, depth + 1):
             nxt = []
             alphabet = bs if (dep <= 2 or tier != "quick") else bs[:12]
+            if dep == 1 and mod in (None, 2):
+                alphabet = alphabet + [huge_batch(keys, mod, kdt)]      # explored as a first batch (and then followed by every second batch)
             for hist in frontier:
                 for b in alphabet:
                     h2 = hist + [b]
@@ -148,6 +175,9 @@ def run_shard(shard, tier, acc):
 
 def _batch_features(acc, cfg, b):
     keys, mod, kdt, init = cfg
+    if isinstance(b, dict):
+        acc.feature("huge_batch")
+        b = expand(b)[:0] + [v for v, c in b["rep"]]
     m = mod if mod is not None else 2 * len(keys) - 1
     buckets = {k % m for k in keys}
     if not b:
@@ -179,13 +209,16 @@ def _step(acc, cfg, hist, seen, cross):
         acc.fail("count-refused", "counted", r)
         return "bad"
     c, d, key, obs = r
+    if init == "ndarray" and LAST_INIT is not None and LAST_INIT.tolist() != [10 * (i + 1) for i in range(len(keys))]:
+        acc.fail("callers-initial-value-array-modified", [10 * (i + 1) for i in range(len(keys))], LAST_INIT.tolist())
+        return "bad"
     exp = (tuple(d[k] for k in keys), tuple((d[k],) for k in keys))
     acc.outcome(obs)
     if obs != exp:
         acc.fail("totals-wrong", exp, obs)
         return "bad"
     if cross is not None:
-        ms = tuple(sorted(collections.Counter(s for b in hist for s in b if s in d).items()))
+        ms = tuple(sorted(collections.Counter(s for b in hist for s in expand(b) if s in d).items()))
         prev = cross.get(ms)
         if prev is None:
             cross[ms] = obs
